@@ -89,6 +89,43 @@ class BV:
     def __repr__(self): return "[" + " ".join(repr(b) for b in reversed(self.bits)) + "]"
     def zext(self, w): return BV(self.bits[:w] + [BF.const(0)] * max(0, w - self.w))
 
+def bf_from_fn(bvs, fn):
+    """Exact Boolean function of fn(int values of the given bit vectors), by enumeration over their (<= MAXV) input bits."""
+    vs = set()
+    for bv in bvs:
+        for bit in bv.bits:
+            if bit is TOP: return TOP
+            vs |= set(bit.vs)
+    vs = tuple(sorted(vs))
+    if len(vs) > MAXV: return TOP
+    tt = 0
+    for a in range(1 << len(vs)):
+        env = {v: (a >> i) & 1 for i, v in enumerate(vs)}
+        vals = []
+        for bv in bvs:
+            x = 0
+            for n, bit in enumerate(bv.bits):
+                sub = 0
+                for j, v in enumerate(bit.vs):
+                    if env[v]: sub |= 1 << j
+                if (bit.tt >> sub) & 1: x |= 1 << n
+            vals.append(x)
+        if fn(*vals): tt |= 1 << a
+    return BF(vs, tt).simp()
+
+
+def bf_table(bf, names):
+    """Set of integer values (over the ordered bit names, lsb first) for which the Boolean function is true."""
+    if bf is TOP: return None
+    out = set()
+    for x in range(1 << len(names)):
+        sub = 0
+        for j, v in enumerate(bf.vs):
+            if v in names and (x >> names.index(v)) & 1: sub |= 1 << j
+        if (bf.tt >> sub) & 1: out.add(x)
+    return out
+
+
 def bv_ite(c, a, b): return BV([ite(c, x, y) for x, y in zip(a.bits, b.bits)])
 
 class View:  # slice view into a named byte array
@@ -167,7 +204,9 @@ class Interp:
                 r = BF.const(1)
                 for x, y in zip(a.bits, b.bits): r = r & ~(x ^ y)
             return r if op == "Eq" else ~r
-        if op in ("Lt", "Le", "Gt", "Ge"): return TOP
+        if op in ("Lt", "Le", "Gt", "Ge"):
+            import operator as _op
+            return bf_from_fn([a, b], lambda x, y: {"Lt": _op.lt, "Le": _op.le, "Gt": _op.gt, "Ge": _op.ge}[op](x, y))
         if op.startswith("Add") or op.startswith("Sub"):
             c = BF.const(0 if op.startswith("Add") else 1); out = []
             for x, y in zip(a.bits, b.bits):
